@@ -7,6 +7,7 @@ import RodbusModel.Spec.SerialLife
     o  the device path is present from now on; a pending wait elapses (next open attempt: succeeds)
     x  the device disappears (path removed; an open port fails)
     E / D / S  enable / disable / shutdown through the user's handle
+    X  every handle is dropped
     ~<ms>  pause
   Output: the announced `PortState`s, e.g. `Disabled,Wait(40),Wait(80),Open,Disabled,Shutdown`
   (delays in whole milliseconds like `Duration::as_millis`; the model computes in nanoseconds).
@@ -21,6 +22,7 @@ def sportStep (s : String) : Option Ev :=
   else if s = "E" then some .enable
   else if s = "D" then some .disable
   else if s = "S" then some .shutdown
+  else if s = "X" then some .dropAll
   else if s.startsWith "~" && ((s.drop 1).toString.toNat?).isSome then some .pause
   else none
 
@@ -49,7 +51,10 @@ def runSport (tok : List String) : String × String :=
         -- specification: the counter machine, and its output checked on its own
         let spec := Spec.SerialLife.run mnNs mxNs evs
         let ok := Spec.SerialLife.conforms mnNs mxNs false 0 spec
-        (show_ model, (if ok then "" else "NONCONFORMING ") ++ show_ spec)
+        -- C13: Disabled first, legal adjacent pairs, Shutdown once and last
+        let legal := Spec.SerialLife.legalLog spec
+        (show_ model, (if ok then "" else "NONCONFORMING ") ++ (if legal then "" else "ILLEGAL ") ++
+          show_ spec)
     | _, _, _, _ => ("bad-case", "bad-case")
   | _ => ("bad-case", "bad-case")
 
